@@ -854,6 +854,11 @@ class CeiloChunk(AbstractChunk):
             # What are the valid points ?
             valids = tmp['height'].notna() * valids
 
+            # A bundle may hold a single hit (the slices it overlaps with were bundled elsewhere). There is
+            # nothing to cluster then: the hit keeps the id of its slice, like hits of isolated slices.
+            if valids.sum() < 2:
+                continue
+
             # Run the clustering
             nlabels, labels = cluster.clusterize(
                 tmp[['dt', 'height']][valids].to_numpy(), algo='agglomerative',
